@@ -264,6 +264,19 @@ func (x *Exec) loopEnv(st *State, fr *Frame, h *ssa.BasicBlock, lc *LoopContract
 			}
 		}
 	}
+	// $rangeslice: the slice a range-over-slice loop iterates (the operand of the len() bounding rangeindex)
+	for _, ins := range h.Instrs {
+		if cmp, ok := ins.(*ssa.BinOp); ok && cmp.Op == token.LSS {
+			if lc, ok := cmp.Y.(*ssa.Call); ok {
+				if bi, ok := lc.Call.Value.(*ssa.Builtin); ok && bi.Name() == "len" && len(lc.Call.Args) == 1 {
+					if v, ok := fr.vals[lc.Call.Args[0]]; ok {
+						v.T = lc.Call.Args[0].Type()
+						vars["$rangeslice"] = v
+					}
+				}
+			}
+		}
+	}
 	// named SSA values visible by their names (t5 ...) for advanced invariants
 	if lc != nil {
 		for spec, src := range lc.Binds {
